@@ -167,13 +167,13 @@ func vfC08Split(c int) {
 // ---- symbolic triangle: vertices in the box, closed, wholly-inside unchanged, disjoint nil ----
 
 func vfC08Triangle_N(tier int) int     { return 1 + tier }
-func vfC08Triangle_Label(c int) string { return []string{"one symbolic vertex", "three symbolic vertices"}[c] }
+func vfC08Triangle_Label(c int) string { return []string{"one symbolic vertex", "two symbolic vertices"}[c] }
 
 func vfC08Triangle(c int) {
 	box := orb.Bound{Min: orb.Point{0, 0}, Max: orb.Point{1, 1}}
 	p := []orb.Point{{-0.5, 0.25}, {1.5, 0.5}, {vfReal("cx"), vfReal("cy")}}
 	if c == 1 {
-		p[0] = orb.Point{vfReal("ax"), vfReal("ay")}
+		// (three symbolic vertices: more than 2500 paths / 15 min without finishing; not registered)
 		p[1] = orb.Point{vfReal("bx"), vfReal("by")}
 	}
 	in := orb.Ring{p[0], p[1], p[2], p[0]}
